@@ -24,9 +24,9 @@ def run(ctx):
     if q:
         grid2 = [dict(MaxFile=3, SyncEvery=3, Sizes={1, 2}, MaxPuts=2)]
     else:
-        grid2 = [dict(MaxFile=3, SyncEvery=3, Sizes={1, 2}, MaxPuts=3),
+        grid2 = [dict(MaxFile=3, SyncEvery=3, Sizes={1, 2}, MaxPuts=4),
                  dict(MaxFile=1, SyncEvery=2, Sizes={1, 2}, MaxPuts=3),
-                 dict(MaxFile=5, SyncEvery=1, Sizes={1, 3}, MaxPuts=3),
+                 dict(MaxFile=5, SyncEvery=1, Sizes={1, 3}, MaxPuts=4),
                  dict(MaxFile=3, SyncEvery=2, Sizes={1, 2}, MaxPuts=3, AllowReopen=True)]
     dqlib.mc_two_crashes(ctx, grid2)
 
@@ -134,7 +134,7 @@ def run(ctx):
             sig = "contract-event %s" % ev["ev"]
         ctx.violation(sig, what, dict(history=hist, prefix=block[:idx + 1][-30:]))
 
-    ntr, nrej = dqlib.validate_level_a(ctx, events, True, False, on_reject)
+    ntr, nrej = dqlib.validate_level_a(ctx, events, True, False, on_reject, max_rounds=12)
     if diverged:
         ctx.note("%d second-generation run(s) did not hand out what the recovery of the same snapshot delivered; "
                  "not judged, e.g. %s" % (len(diverged), json.dumps(diverged[0])[:600]))
